@@ -237,6 +237,12 @@ def build(P):
                            "recall_is_cumulative_tp_over_ground_truths", "forall(k, 0, len(self.tp_list), result[1][k] == (self.tp_list[k] / self.num_ground_truth if self.num_ground_truth > 0 else 0))")))
     tp_fp_tasks(P)
     init_tasks(P)
+    # APH's TP weight (what the "H" adds to the area): C09's contract of TPMetricsAph.get_value and the two heading functions, re-verified here
+    import contracts.C09 as C09
+    n0_ = len(P.tasks)
+    C09.build(P)
+    P.tasks[n0_:] = [t for t in P.tasks[n0_:] if t.name.startswith(("get_heading_bev", "TPMetricsAph"))]
+    P.min_obligations = 60
     # ---------------------------------------------------------------- interpolation: maximum precision at any higher recall
     PL, RLs = "precision_list", "recall_list"
     MP, MR = "max_precision_list", "max_precision_recall_list"
